@@ -92,7 +92,7 @@ def _merge(ctx, sub):
         ctx.coverage_extra[k] = ctx.coverage_extra.get(k, 0) + v
 
 
-def pipeline(ctx, genmodule, suite, judgemodule, judgecfg, parts, unit, sample, zones=()):
+def pipeline(ctx, genmodule, suite, judgemodule, judgecfg, parts, unit, sample, zones=(), tzs=()):
     """generate (+ model-check) every part, drive and judge.  quick: the generators run concurrently and
     the cases of all parts of one group (same judge configuration) are driven and judged together;
     thorough: part by part (bounded memory), the next generator overlapping the current drive + judge.  A part with sim == "M" is model-checked only."""
@@ -135,6 +135,24 @@ def pipeline(ctx, genmodule, suite, judgemodule, judgecfg, parts, unit, sample, 
             ctx.drive(suite, cf, ofz, env={"VERIF_C10_ZONE_MIN": str(z)})
             vs = pjudge(ctx, judgemodule, judgecfg(batch[0][0]["group"]), ofz, names + "_z%d" % z, parts=4 if ctx.quick else 8)
             ctx.note("%s under zone %+d min: %d cases (%.0fs; %d not ok)" % (names, z, ctx.count_lines(ofz), time.time() - t0, len(vs)))
+        # C18: the same histories once more on a statement that carries tz('<zone>'), with the bases 1..3 placed around
+        # the hour that the zone's clocks repeat at the end of daylight saving time (harness/suite_c10.go)
+        for tz in tzs:
+            oft = ctx.path("obs_%s_tz.ndjson" % names)
+            t0 = time.time()
+            cft = ctx.path("cases_%s_tz.ndjson" % names)
+            with open(cf, encoding="utf-8") as g, open(cft, "w", encoding="utf-8") as out:
+                for i, line in enumerate(g):
+                    if ctx.quick and i % 4 != ctx.seed % 4:      # quick: every fourth history (which ones depends on the seed)
+                        continue
+                    c = json.loads(line)
+                    if isinstance(c, str):
+                        c = json.loads(c)
+                    c["tz"] = tz
+                    out.write(json.dumps(c, ensure_ascii=False) + "\n")
+            ctx.drive(suite, cft, oft)
+            vs = pjudge(ctx, judgemodule, judgecfg(batch[0][0]["group"]), oft, names + "_tz", parts=4 if ctx.quick else 8)
+            ctx.note("%s with tz('%s'), windows around the repeated hour: %d cases (%.0fs; %d not ok)" % (names, tz, ctx.count_lines(oft), time.time() - t0, len(vs)))
         os.remove(cf)
 
     def after_gen(p, sub, cf, r):
